@@ -9,6 +9,7 @@
 //!   S seed              a short soup of types / expressions / words in one position of a valid program
 //!   F path              a file of /verif (corpus)
 //!   K index             an extreme constant expression in one of the compile-time-evaluated positions
+//!   A index             an attribute spelling in front of one kind of declaration or statement
 //!   X hex               the entry file given byte for byte
 //! Output: OK n | ERR <first line> | PANIC <file>: <message> ; the supervisor adds ABORT <status> and TIMEOUT.
 use crate::common::*;
@@ -198,6 +199,30 @@ pub const CONST_EXPRS: &[&str] = &[
     "true ? 1 : (1 / 0)", "false && (1 / 0) == 0", "sizeof(int) - 8u", "(int)sizeof(float4x4) * 1000000000", "abs(-2147483647 - 1)", "min(1, 2u)", "max(-1, 1u)", "(int)EK::A - 2147483647 - 2", "EK::A", "(EK)5",
 ];
 
+/// every attribute spelling in front of every kind of declaration and statement
+pub const ATTRS: &[&str] = &[
+    "[[rssl::bindless]]", "[[rssl::bindless(1)]]", "[[rssl::bind_group(1)]]", "[[rssl::bind_group(1, 2)]]", "[[rssl::bind_group]]", "[[rssl::bind_group(-1)]]", "[[rssl::bind_group(1.5)]]",
+    "[[vk::binding(1)]]", "[[vk::binding(1, 2)]]", "[[vk::binding(1, 2, 3)]]", "[[vk::binding]]", "[[vk::push_constant]]", "[[rssl::nothing]]", "[[other::x]]", "[[x]]",
+    "[numthreads(1, 1, 1)]", "[numthreads(1, 1)]", "[numthreads]", "[unroll]", "[unroll(4)]", "[unroll(4, 5)]", "[loop]", "[branch]", "[flatten]", "[fastopt]", "[allow_uav_condition]", "[forcecase]", "[call]",
+    "[outputtopology(\"triangle\")]", "[outputtopology(3)]", "[WaveSize(32)]", "[earlydepthstencil]", "[maxvertexcount(3)]", "[noinline]", "[nothing]", "[nothing(1, \"s\")]",
+];
+pub const ATTR_POSITIONS: &[&str] = &[
+    "@ cbuffer C { float4 t; }\n", "cbuffer C { @ float4 t; }\n", "@ Texture2D<float4> g;\n", "@ RWByteAddressBuffer g;\n", "@ SamplerState g;\n", "@ Texture2D<float4> g[4];\n", "@ Texture2D<float4> g[];\n",
+    "struct S { float4 m; };\n@ ConstantBuffer<S> g;\n", "struct S { float4 m; };\n@ StructuredBuffer<S> g;\n", "@ BufferAddress g;\n", "@ static int g = 1;\n", "@ static const int g = 1;\n", "@ groupshared int g[4];\n", "@ int g;\n",
+    "@ struct S { int m; };\n", "struct S { @ int m; };\n", "struct S { @ int m() { return 1; } };\n", "@ enum E { A };\n", "enum E { @ A };\n", "@ namespace N { int v; }\n", "@ typedef int T;\n",
+    "@ void f() {}\n", "@ void f();\n", "void f(@ int p) {}\n", "@ template<typename T> T id(T v) { return v; }\n", "void f() { @ int l = 0; }\n", "void f(int a) { @ if (a) {} }\n", "void f(int a) { @ if (a) {} else {} }\n",
+    "void f(int a) { @ for (int i = 0; i < 2; ++i) {} }\n", "void f(int a) { @ while (a) { a = 0; } }\n", "void f(int a) { @ do { a = 0; } while (a); }\n", "void f(int a) { @ switch (a) { case 1: break; default: break; } }\n",
+    "void f(int a) { switch (a) { @ case 1: break; } }\n", "void f(int a) { @ return; }\n", "void f(int a) { @ { a = 1; } }\n", "void f(int a) { @ a = 1; }\n", "void f(int a) { @ ; }\n",
+    "@ [numthreads(1, 1, 1)] void CS2() {}\nPipeline P2 { ComputeShader = CS2; }\n", "[numthreads(1, 1, 1)] @ void CS2() {}\nPipeline P2 { ComputeShader = CS2; }\n", "[numthreads(1, 1, 1)] void CS2() {}\n@ Pipeline P2 { ComputeShader = CS2; }\n",
+    "[numthreads(1, 1, 1)] void CS2() {}\nPipeline P2 { @ ComputeShader = CS2; }\n", "@\n", "@ ;\n",
+];
+
+fn attr_probe(i: usize) -> Option<String> {
+    let a = ATTRS.get(i / ATTR_POSITIONS.len())?;
+    let p = ATTR_POSITIONS[i % ATTR_POSITIONS.len()];
+    Some(format!("{}[numthreads(1, 1, 1)] void CSMAIN() {{}}\nPipeline Main {{ ComputeShader = CSMAIN; }}\n", p.replace('@', a)))
+}
+
 fn const_probe(i: usize) -> Option<String> {
     let e = CONST_EXPRS.get(i / 8)?;
     let pre = "enum EK { A = 1, B = -3 };\n";
@@ -313,6 +338,7 @@ pub fn input_of(w: &[&str]) -> Option<Input> {
         ("D", 3) => nest(w[1], w[2].parse().ok()?),
         ("S", 2) => plain(skeleton(w[1].parse().ok()?)),
         ("K", 2) => plain(const_probe(w[1].parse().ok()?)?),
+        ("A", 2) => plain(attr_probe(w[1].parse().ok()?)?),
         ("F", 2) => {
             let root = std::env::var("RSSL_VERIF").unwrap_or("/verif".into());
             plain(std::fs::read_to_string(format!("{}/{}", root, w[1])).ok()?)
@@ -380,6 +406,7 @@ pub fn gen_cases(seed: u64, n: usize, thorough: bool) -> Vec<String> {
         for d in big { out.push(format!("{} D {} {}", cfg(&mut rng), k, d)); }
     }
     for i in 0..(CONST_EXPRS.len() * 8) { out.push(format!("{} K {}", cfg(&mut rng), i)); }
+    for i in 0..(ATTRS.len() * ATTR_POSITIONS.len()) { out.push(format!("{} A {}", cfg(&mut rng), i)); }
     for _ in 0..n {
         out.push(format!("{} B {} {}", cfg(&mut rng), rng.below(1 << 40), rng.range(1, 4096)));
         out.push(format!("{} T {} {}", cfg(&mut rng), rng.below(1 << 40), rng.range(1, 4096)));
